@@ -198,8 +198,11 @@ def changes_of(f: Facts):
     through the public characteristic values before/after each op"""
     res = []
     for i, op in enumerate(f.ops):
+        worker = False
         if op[0] == "app_set":
             x, v, who = op[1], op[2], None
+        elif op[0] == "app_set_thread":
+            x, v, who, worker = op[1], op[2], None, True
         elif op[0] == "put" and op[4] is not None:
             p = op[1]
             if p not in f.log:
@@ -215,8 +218,23 @@ def changes_of(f: Facts):
         else:
             changed = before is None or before[x] != v
         if changed:
-            res.append((i, x, v, who))
+            res.append((i, x, v, who, worker))
     return res
+
+
+def worker_overtaken(chg, x, learned, src) -> bool:
+    """shape of the worker-thread hand-off defect: the value last learned came with an event, was
+    made by a change on a worker thread, and a newer change of x (controller write or loop-thread
+    set) happened before that event was sent"""
+    if src is None or src[0] != "event":
+        return False
+    made = [c for c in chg if c[1] == x and c[2] == learned and c[0] <= src[1]]
+    if not made or not made[-1][4]:
+        return False
+    return any(c[1] == x and made[-1][0] < c[0] <= src[1] and c[2] != learned for c in chg)
+
+
+WORKER_SIG = "C12:worker-change-overtaken-by-newer-change"
 
 
 def oracle_c12(f: Facts) -> List[Tuple[str, str]]:
@@ -274,7 +292,9 @@ def oracle_c12(f: Facts) -> List[Tuple[str, str]]:
                 cur = d["values"][x]
                 if learned != cur:
                     sig = "C12:quiescent-learned-differs"
-                    if src is not None and src[0] == "event":
+                    if worker_overtaken(chg, x, learned, src):
+                        sig = WORKER_SIG
+                    elif src is not None and src[0] == "event":
                         # an event that arrived after a later own acknowledged write of another value
                         own = [k for k in range(f.n) if k < src[1] and f.ops[k][0] == "put" and f.ops[k][1] == p and f.ops[k][2] == x and f.ops[k][4] is not None and f.ops[k][4] != learned]
                         stale = [c for c in chg if c[1] == x and c[2] == learned and c[3] != p]
@@ -305,10 +325,12 @@ def oracle_c12(f: Facts) -> List[Tuple[str, str]]:
                 cur = d["values"][x]
                 if src is None or learned == cur:
                     continue
-                if any(s_[0].startswith("C12:originator-stale") or s_[0] == "C12:quiescent-learned-differs" for s_ in bad):
+                if any(s_[0].startswith("C12:originator-stale") or s_[0] in ("C12:quiescent-learned-differs", WORKER_SIG) for s_ in bad):
                     continue  # already reported under the first form
                 sig = "C12:stale-value-learned-after-subscription"
-                if src[0] == "event":
+                if worker_overtaken(chg, x, learned, src):
+                    sig = WORKER_SIG
+                elif src[0] == "event":
                     t_ev = next(e[0] for e in f.log[p] if e[1] == "event" and e[-1] == src[1])
                     made = [c for c in chg if c[1] == x and c[2] == learned and c[0] <= src[1]]
                     if made and any(c[0] < start for c in made) and not any(c[0] >= start for c in made):
